@@ -71,6 +71,29 @@ static long g_yields_since_progress = 0;
 static int g_nthreads_region = 1;
 
 static inline uint64_t mix(uint64_t h, uint64_t v) { return (h ^ v) * 1099511628211ull; }
+// addresses of the atomic variables seen at synchronisation points (for the
+// optional state hash of whole-simulation runs)
+static std::vector< std::pair< const volatile void *, size_t > > g_atomics;
+static std::vector< const volatile void * > g_atomics_sorted;
+static void track_atomic(const volatile void *addr, size_t size) {
+  if (!addr || size == 0 || size > 8)
+    return;
+  auto it = std::lower_bound(g_atomics_sorted.begin(), g_atomics_sorted.end(), addr);
+  if (it != g_atomics_sorted.end() && *it == addr)
+    return;
+  g_atomics_sorted.insert(it, addr);
+  g_atomics.push_back(std::make_pair(addr, size));
+}
+uint64_t tracked_atomics_hash() {
+  // order independent of allocation addresses: by first appearance
+  uint64_t h = 0x9e3779b97f4a7c15ull;
+  for (auto &a : g_atomics) {
+    uint64_t v = 0;
+    memcpy(&v, (const void *)a.first, a.second);
+    h = mix(h, v);
+  }
+  return h;
+}
 
 void add_violation(const std::string &key, const std::string &detail) {
   rec.violations.push_back(key + "|" + detail);
@@ -99,6 +122,12 @@ static void write_report(int verdict) {
   out += "C";
   for (size_t i = 0; i < rec.choices.size(); ++i) {
     snprintf(buf, sizeof(buf), " %d:%d", rec.ncand[i], rec.choices[i]);
+    out += buf;
+  }
+  out += "\n";
+  out += "K";
+  for (size_t i = 0; i < rec.kinds.size(); ++i) {
+    snprintf(buf, sizeof(buf), " %d", rec.kinds[i]);
     out += buf;
   }
   out += "\n";
@@ -196,6 +225,7 @@ static int choose_next(ThreadState *cur) {
     rec.hashes.push_back(state_hash());
   rec.choices.push_back(c);
   rec.ncand.push_back((int)cand.size());
+  rec.kinds.push_back(cur ? cur->pend_kind : (int)cmi_verif::OP_START);
   g_last_run[cand[c]] = ++g_clock;
   // bookkeeping of consecutive self continuations at yield points
   for (ThreadState *t : g_threads) {
@@ -225,6 +255,8 @@ static void sync_point_impl(int kind, const volatile void *addr, size_t size) {
   cur->pend_addr = addr;
   cur->pend_size = size;
   cur->nsync++;
+  if (sched.track_atomics && kind != cmi_verif::OP_PLAIN)
+    track_atomic(addr, size);
   if (++rec.steps > sched.max_steps)
     finish_child(V_HORIZON);
   const int next = choose_next(cur);
@@ -292,6 +324,15 @@ int initial_owner(long subgrid_index, int nthreads) {
 }
 
 static void deliver(const char *what, long a, long b, long c, const void *ptr) {
+  if (sched.track_atomics && g_active && tl_state) {
+    // plain data that reaches a thread (task indices, counts) is part of what it observed
+    uint64_t h = tl_state->obs;
+    for (const char *p = what; *p; ++p)
+      h = mix(h, (uint64_t)*p);
+    h = mix(h, (uint64_t)a);
+    h = mix(h, (uint64_t)b);
+    tl_state->obs = mix(h, (uint64_t)c);
+  }
   if (sched.record_events) {
     char buf[160];
     snprintf(buf, sizeof(buf), "%s %ld %ld %ld t%d\n", what, a, b, c, current_thread());
